@@ -1,4 +1,5 @@
 """C01 disciplined totality: outcome classes of the three entry points under the option grid."""
+import time
 import collections
 import canon, gen, runner
 from propchecks import common
@@ -31,22 +32,37 @@ def run(ctx):
         elif len(violations) < 25 and not any(v['signature'] == sig for v in violations):
             violations.append(dict(property='C01', input=req[2], options=req[1], entry=req[0], signature=sig, impl_outcome=i[:1000],
                                    how='outcome class of the implementation is neither the documented result nor ParsingError/NotImplementedError'))
+    timeouts = []
     for (req, i, m, it, mt) in runner.run_all(reqs):
         c = runner.outcome_class(i)
         classes[c] += 1
         if c != runner.outcome_class(m):
             corr_broken.append(dict(request=[req[0], req[1], req[2]], impl=i[:300], model=m[:300]))
         if c == 'timeout':
-            # wall-clock budgets can fire on a loaded machine: confirm alone with a generous budget
-            again = canon.norm_outcome(canon.run(runner.get_bashlex(), req[0], req[2], timeout=300, **(req[1] if req[0] != 'split' else {})))
-            if runner.outcome_class(again) != 'timeout':
-                classes['timeout-not-confirmed'] += 1; c = runner.outcome_class(again); i = again
+            timeouts.append((req, m)); continue
         if c.startswith('foreign:') or c in ('timeout', 'other'):
             bad(req, i, c)
         elif i.startswith('OK ') or i.startswith('ONE '):
             if not req[1].get('convertpos'):
                 tree_items.append((req[2], i)); tree_reqs.append(req)
             nontrivial.add(req[2])
+    # wall-clock budgets can fire on a loaded machine: every exhausted budget is re-run alone, in a fresh
+    # process, shortest input first, with a generous budget; once CONFIRM_MAX of them are confirmed the
+    # rest is not re-run (the violation is established, and a change that hangs must not hang the check)
+    CONFIRM_MAX = 3; confirmed = 0; t_conf = time.time()
+    for req, m in sorted(timeouts, key=lambda t: (len(t[0][2]), t[0][2], t[0][0])):
+        if confirmed >= CONFIRM_MAX or time.time() - t_conf > 1200:
+            classes['timeout-not-rerun'] += 1; continue
+        again = runner.confirm_alone(req, timeout=120)
+        c = runner.outcome_class(again)
+        if c != 'timeout':
+            classes['timeout-not-confirmed'] += 1; classes[c] += 1
+            if c.startswith('foreign:') or c == 'other': bad(req, again, c)
+            elif (again.startswith('OK ') or again.startswith('ONE ')) and not req[1].get('convertpos'):
+                tree_items.append((req[2], again)); tree_reqs.append(req); nontrivial.add(req[2])
+        else:
+            confirmed += 1; classes['timeout-confirmed'] += 1
+            bad(req, again, 'timeout')
     # "no non-node value is returned in place of a tree": typed deserialisation of every returned tree
     for k in range(0, len(tree_items), 2000):
         items = tree_items[k:k + 2000]
